@@ -82,9 +82,8 @@ theorem extractCommentTags_eq (lines : List Str) (markers : List Char) :
   cases markers with
   | nil => simp [Go.len, extract_loop, Tags.extract, Gengo.Gen.defaultMarkers, bind, Except.bind, pure, Except.pure]
   | cons a as =>
-    have : ¬ ((Int.ofNat (a :: as).length) = 0) := by simp; omega
-    simp [Go.len, extract_loop, Tags.extract, bind, Except.bind, pure, Except.pure]
-    omega
+    have h0 : ¬ ((as.length : Int) + 1 = 0) := by omega
+    simp [Go.len, h0, extract_loop, Tags.extract, bind, Except.bind, pure, Except.pure]
 
 /-- never panics, never runs out of fuel: the outcome is always a value -/
 theorem extractCommentTags_total (lines : List Str) (markers : List Char) :
